@@ -204,4 +204,40 @@ example : Gen.K17.estimateBlackPoint (words [0, 0, 9, 1, 0, 7, 0, 0]) = .ok (32,
 when_kernel Gzx.Gen.K17.estimateBlackPoint in
 example : Gen.K17.estimateBlackPoint (words [0, 0, 0, 0, 0, 0, 0, 0]) = .ok (0, true) := by decide +kernel
 
+/-! ## `GlobalHistogramBinarizer.initArrays` -/
+
+when_kernel Gzx.Gen.K17.initArrays in
+/-- `initArrays(luminanceSize)`: a scratch row shorter than the request is replaced by `make([]byte, luminanceSize)`, and ALL 32
+    buckets are zeroed (index panic on a histogram with fewer buckets) — the precondition of every histogram the two
+    `GetBlack…` methods build. -/
+theorem k_initArrays_eq (lum bk : List Int) (n : Nat) :
+    Gen.K17.initArrays lum bk (n : Int) =
+      if bk.length < 32 then .error oob
+      else .ok (if lum.length < n then List.replicate n 0 else lum, List.replicate 32 0 ++ bk.drop 32) := by
+  simp only [Gen.K17.initArrays]
+  have hfirst : ∀ k : List Int → Res (List Int × List Int),
+      ((if decide (len lum < (n : Int)) = true then tryC (mk (n : Int)) fun t1 => Ctl.next t1 else Ctl.next lum :
+          Ctl (List Int) (List Int × List Int))).thenR k = k (if lum.length < n then List.replicate n 0 else lum) := by
+    intro k
+    by_cases h : lum.length < n
+    · have : len lum < (n : Int) := by simp [len]; omega
+      have hm : mk (n : Int) = .ok (List.replicate n 0) := by
+        unfold mk; simp
+      simp [h, this, hm]
+    · have : ¬ len lum < (n : Int) := by simp [len]; omega
+      simp [h, this]
+  rw [hfirst]
+  rw [loop_up_fold' (fun (t : List Int) => t) (fun (t : List Int) (i : Nat) => setIdx t (i : Int) 0) 0 32 bk rfl
+        (by rw [tripUp_one]; rfl) (by omega)]
+  · by_cases hb : bk.length < 32
+    · have he : (List.range' 0 32).foldlM (fun (t : List Int) (i : Nat) => setIdx t (i : Int) 0) bk = .error oob :=
+        K17.foldlM_range_error _ bk _ bk.length 32 oob hb (foldlM_setIdx_prefix 0 bk bk.length (Nat.le_refl _))
+          (by rw [setIdx_ge]; simp)
+      simp [he, hb, Except.map]
+    · rw [foldlM_setIdx_prefix 0 bk 32 (by omega)]
+      simp [hb, Except.map]
+  · intro i _ _ t
+    simp only [Gen.K17.initArrays_body1]
+    cases setIdx t (i : Int) 0 <;> rfl
+
 end Gzx.Obligations.K17
